@@ -212,6 +212,7 @@ type peerConn struct {
 	writeFails   bool
 	clientClosed bool
 	tainted      bool // previous exchange did not end cleanly: must never carry another request
+	nClose       int  // number of close announcements sent so far (selects their letter case)
 	rdl          time.Time
 	users        int32
 	host         int      // index of the host this connection was dialled to (Client-level runs)
@@ -383,7 +384,9 @@ func (p *peerConn) respond(fault, id int, sawClose bool) {
 			p.out = append(p.out, full+"\r\n"+body...)
 		}
 	case fOKClose:
-		p.out = append(p.out, full+"Connection: close\r\n\r\n"+body...)
+		// every third announcement in another letter case (the option is case-insensitive, RFC 7230 6.1; /repo a8cd011)
+		p.nClose++
+		p.out = append(p.out, full+[]string{"Connection: close", "Connection: close", "Connection: Close"}[p.nClose%3]+"\r\n\r\n"+body...)
 		p.tainted = true
 	case fOKThenClose:
 		p.out = append(p.out, full+"\r\n"+body...)
